@@ -61,6 +61,8 @@ PROBED_NEIGHBOURS = {
     'rsa-sha2-512': {'t': 'rsa', 'bits': 1024}, 'ssh-rsa': {'t': 'rsa', 'bits': 1024}, 'rsa-sha2-256': {'t': 'rsa', 'bits': 1024},
 }
 GEX1, GEX256 = 'diffie-hellman-group-exchange-sha1', 'diffie-hellman-group-exchange-sha256'
+# targets whose own notes depend on what their probe measures (the measurement is the same alone and beside neighbours)
+RSA_TARGETS = {'ssh-rsa': 1024, 'rsa-sha2-256': 2048, 'rsa-sha2-512': 4096}
 
 
 def eval_probed(case):
@@ -82,10 +84,18 @@ def eval_probed(case):
                 if any(n in ('ssh-rsa', 'rsa-sha2-256', 'rsa-sha2-512') for n in keys):
                     for n in ('ssh-rsa', 'rsa-sha2-256', 'rsa-sha2-512'):
                         hostkeys[n] = {'t': 'rsa', 'bits': 1024}
+                if case.get('first_kex'):
+                    # ... and the key exchange the probes run over is another one (an unrelated neighbour as far as a host key is concerned)
+                    kex = [case['first_kex'], 'curve25519-sha256']
+                    if case['first_kex'].startswith('diffie-hellman-group-exchange'):
+                        mba[case['first_kex']] = [3072]
             else:
                 other = GEX1 if name == GEX256 else GEX256
                 kex = ['curve25519-sha256'] + ([other, name] if case['order'] else [name, other])
                 mba[other] = case['other_moduli']
+        if name in RSA_TARGETS:
+            for n in RSA_TARGETS:
+                hostkeys[n] = {'t': 'rsa', 'bits': RSA_TARGETS[name]}       # one RSA key per server, whatever names it goes by
         spec = {'banner': case['banner'], 'kex': kex, 'key': keys, 'hostkeys': hostkeys, 'moduli': [], 'moduli_by_alg': mba, 'gex_style': case.get('style', 'openssh')}
         if cat == 'kex' and case.get('other_style'):
             spec['gex_style_by_alg'] = {(GEX1 if name == GEX256 else GEX256): case['other_style']}
@@ -102,7 +112,7 @@ def eval_probed(case):
         a, b = seen.get(('alone', view)), seen.get(('beside', view))
         if a is not None and b is not None and a != b:
             fails.append(['notes-change-with-measured-neighbours-%s' % view, '%s %s: alone %r, beside %r it shows %r' % (cat, name, {k: dict(v) for k, v in a.items()}, case.get('before', []) + case.get('after', []) or case.get('other_moduli'), {k: dict(v) for k, v in b.items()})])
-    return mkres(case, nt=True, classes=['probed', 'cat:' + cat], fails=fails)
+    return mkres(case, nt=True, classes=['probed', 'cat:' + cat] + (['probes-over:' + case['first_kex']] if case.get('first_kex') else []), fails=fails)
 
 
 def eval_case(case):
@@ -225,10 +235,12 @@ def build_case(cat, name, role, pos, neigh):
 
 def strat_scan():
     def build(t):
-        cat, idx, role, pos, nk, nh, ne, nm, kind, gss, unk = t
+        cat, idx, role, pos, nk, nh, ne, nm, kind, gss, unk, ugss = t
         names = gens.db_names(cat)
         if kind == 'gss':
             cat, name = 'kex', gss
+        elif kind == 'unknown-gss':
+            cat, name = 'kex', ugss        # looks like a GSS key exchange but matches no family of the table
         elif kind == 'unknown':
             name = unk
         else:
@@ -247,7 +259,7 @@ def strat_scan():
         return case
     nl = lambda c: st.lists(st.sampled_from(gens.db_names(c)), min_size=0, max_size=5, unique=True)
     return st.tuples(st.sampled_from(CATS), st.integers(0, 10000), st.sampled_from(['server', 'server', 'client']), st.integers(0, 5), nl('kex'), nl('key'), nl('enc'), nl('mac'),
-                     st.sampled_from(['db'] * 6 + ['gss', 'gss', 'unknown']), gens.gss_name(), gens.unknown_name(20).filter(lambda s: not s.startswith('gss-'))).map(build)
+                     st.sampled_from(['db'] * 6 + ['gss', 'gss', 'unknown', 'unknown-gss']), gens.gss_name(), gens.unknown_name(20).filter(lambda s: not s.startswith('gss-')), gens.unknown_gss_name()).map(build)
 
 
 def valid_case(case):
@@ -284,11 +296,14 @@ def run(ctx):
     import itertools
     probed = []
     nb = sorted(PROBED_NEIGHBOURS)
-    for name in sorted(HK):
+    for name in sorted(HK) + sorted(RSA_TARGETS):
         for k in (1, 2):
-            for combo in itertools.permutations(nb, k):
+            for combo in itertools.permutations([n for n in nb if not (name in RSA_TARGETS and n in RSA_TARGETS)], k):
                 for split in range(k + 1):
                     probed.append({'kind': 'probed', 'cat': 'key', 'name': name, 'before': list(combo[:split]), 'after': list(combo[split:]), 'banner': 'SSH-2.0-OpenSSH_8.0'})
+                    fk = [None, GEX256, 'diffie-hellman-group14-sha256', GEX1, 'ecdh-sha2-nistp256', 'diffie-hellman-group16-sha512', 'curve25519-sha256@libssh.org'][len(probed) % 7]
+                    if fk:
+                        probed.append({'kind': 'probed', 'cat': 'key', 'name': name, 'before': list(combo[:split]), 'after': list(combo[split:]), 'banner': 'SSH-2.0-OpenSSH_8.0', 'first_kex': fk})
     for name in (GEX1, GEX256):
         for mine in ([3072], [4096], [2048], [1024], [2048, 3072], []):
             for other in ([2048, 4096], [1024], [3072], [2048], []):
